@@ -235,7 +235,22 @@ func (e *Engine) builtin(st *State, fr *Frame, b *ssa.Builtin, call *ssa.Call, a
 			}
 			return nil
 		}
-		panic(unsupported("clear of non-map"))
+		if sl, ok := args[0].(SliceV); ok {
+			if sl.Len > 0 {
+				var et types.Type
+				if call != nil {
+					et = under(call.Call.Args[0].Type()).(*types.Slice).Elem()
+				} else {
+					panic(unsupported("deferred clear"))
+				}
+				arr := st.sliceArrW(sl)
+				for i := 0; i < sl.Len; i++ {
+					arr.E[sl.Off+i] = zeroValue(et)
+				}
+			}
+			return nil
+		}
+		panic(unsupported("clear of this type"))
 	case "String":
 		// unsafe.String(ptr, len)
 		p := args[0].(PtrV)
